@@ -988,6 +988,13 @@ def rule_dbg_pure(ctx):
                     c = Callee(tt)
                     if c.target is None or not readonly(c.target):
                         bad.append((v, c.target or "<indirect>"))
+                    else:
+                        # a closure handed to a reading higher-order function (`KEY.with(|c| c.replace(true))`) runs here too
+                        for cn in (c.closure_args() or []):
+                            if cn in prog.bodies and not readonly(cn):
+                                cb_ = prog.bodies[cn]
+                                eff = [x.target for (_, _, x) in cb_.calls() if x.target and not readonly(x.target)]
+                                bad.append((v, (eff[0] if eff else cn)))
                 for st in b.blocks[v]["stmts"]:
                     if st["k"] == "assign" and "deref" in st["place"]["proj"]:
                         bad.append((v, "<store through a pointer>"))
